@@ -151,6 +151,7 @@ class Module:
         s.forder = []
         s.attrgroups = {}
         s.ctors = []
+        s.aliases = {}
 
 CONSTOPS = {'getelementptr','bitcast','ptrtoint','inttoptr','add','sub','mul','and','or','xor','shl','lshr','ashr','icmp','select','trunc','zext','sext','addrspacecast','udiv','sdiv','urem','srem','fcmp','fneg', 'sitofp', 'uitofp', 'fptosi', 'fptoui','fpext','fptrunc','extractvalue', 'insertvalue'}
 
@@ -260,7 +261,10 @@ def parse_module(text):
                 elif v == 'thread_local': p.next()
                 else: break
             k, v = p.next()
-            if v == 'alias': raise SyntaxError('alias')
+            if v == 'alias':
+                # @a = alias <ty>, <ty>* @target  (constructor/destructor aliases): resolved after parsing
+                toks = [t for t in p.t[p.i:] if t[0] in ('name', 'qname') and t[1][0] == '@']
+                m.aliases[name] = unq(toks[-1][1][1:]); continue
             g['const'] = (v == 'constant')
             ty = p.type(); g['ty'] = ty
             if not p.eof() and not p.at(','):
@@ -302,6 +306,12 @@ def parse_module(text):
             m.funcs[name] = f; m.forder.append(name)
             continue
         raise SyntaxError("top: " + ln[:100])
+    for a, t in m.aliases.items():
+        while t in m.aliases: t = m.aliases[t]
+        if t in m.funcs:
+            m.funcs[a] = m.funcs[t]; m.forder.append(a)
+        elif t in m.globals:
+            m.globals[a] = m.globals[t]
     return m
 
 def parse_ret_type(p):
